@@ -64,8 +64,8 @@ def run_janus(u):
     prover = Prover(t_inproc_ms=20000, use_external=False)
     ob = Obligations(rep, prover, label)
     def on_sat(model):
-        ok, detail = native_janus(order, N, nsteps)
-        return ok, 'C10:janus:order%d' % order, detail, dict(order=order, N=N, steps=nsteps)
+        ok, detail = native_janus(order, N, nsteps, recalc=bool(u.get('recalc')))
+        return ok, 'C10:janus:order%d' % order, detail, dict(order=order, N=N, steps=nsteps, recalc=bool(u.get('recalc')))
     moved = 0
     for i in range(N):
         for k, c in enumerate(COMP):
@@ -79,12 +79,12 @@ def run_janus(u):
     if moved == 0: rep.vacuous.append(label + "forward leg did not change the grid state")
     else: rep.witnesses += 1
     # native witness / replay: random grid states forward and back, bit-for-bit
-    ok, detail = native_janus(order, N, nsteps); rep.replays += 1
-    if ok: rep.violations.append(dict(key='C10:janus:order%d' % order, what=detail, replay=dict(order=order, N=N, steps=nsteps), obligation=label + 'native twin'))
+    ok, detail = native_janus(order, N, nsteps, recalc=bool(u.get('recalc'))); rep.replays += 1
+    if ok: rep.violations.append(dict(key='C10:janus:order%d' % order, what=detail, replay=dict(order=order, N=N, steps=nsteps, recalc=bool(u.get('recalc'))), obligation=label + 'native twin'))
     return rep
 
 _nat = None
-def native_janus(order, N, nsteps, seed=None):
+def native_janus(order, N, nsteps, seed=None, recalc=False):
     global _nat
     if _nat is None: _nat = Native()
     L = _nat.L; rnd = random.Random(int(os.environ.get('VERIF_SEED', '0') or 0) + order * 7 + N)
@@ -96,18 +96,22 @@ def native_janus(order, N, nsteps, seed=None):
             ns.add(m=1e-3 * (1 + rnd.random()), x=a, y=0.1 * rnd.random(), z=0.05 * rnd.random(), vy=a ** -0.5, vx=0.01 * rnd.random(), vz=0.02 * rnd.random())
         ns.set('integrator', L.enumerators['REB_INTEGRATOR_JANUS']); ns.set('ri_janus.order', order); ns.set('dt', 0.013)
         ns.call('reb_simulation_step')            # establishes the grid state
+        if recalc:
+            # the user edits a particle and requests a re-derivation of the grid state; the step consuming the request is the reference
+            ns.particle(1).set('x', ns.particle(1).get('x') * (1 + 1e-9)); ns.set('ri_janus.recalculate_integer_coordinates_this_timestep', 1)
+            ns.call('reb_simulation_step')
         before = [[ns.particle(i).getbits(c) for c in COMP] for i in range(N)]
         for _ in range(nsteps): ns.call('reb_simulation_step')
         ns.set('dt', -0.013)
         for _ in range(nsteps): ns.call('reb_simulation_step')
         after = [[ns.particle(i).getbits(c) for c in COMP] for i in range(N)]
         bad = [(i, COMP[k]) for i in range(N) for k in range(6) if before[i][k] != after[i][k]]
-        return bool(bad), "native JANUS order %d, N=%d: %d steps forward and back %s" % (order, N, nsteps, ("differ in " + repr(bad[:4])) if bad else "return to identical bits")
+        return bool(bad), "native JANUS order %d, N=%d%s: %d steps forward and back %s" % (order, N, " after a user-requested recalculation" if recalc else "", nsteps, ("differ in " + repr(bad[:4])) if bad else "return to identical bits")
     finally:
         ns.free()
 
 def replay(data):
-    return native_janus(data['order'], data['N'], data['steps'])
+    return native_janus(data['order'], data['N'], data['steps'], recalc=data.get('recalc', False))
 
 def run_lemmas(u):
     """the sign rewrites used by the UF domain, proved on full binary64"""
